@@ -8,6 +8,10 @@ from .workload import forced_cases, root_sites
 def shard(i, n, args):
     tier = args[0]
     seed = common.seed()
+    from .pyside import HookCoverage
+
+    cov = HookCoverage()
+    cov.start()
     mm, py = ctx.load(tap=True)
     res = {"cases": 0, "failures": {}, "sites": [], "pairs": [], "samples": [], "genbugs": 0}
     fails = res["failures"]
@@ -48,6 +52,12 @@ def shard(i, n, args):
                 fail("parsed into an alternative the value is not valid for|%s|at=%s%s" % (d[1], owner, usig), {"root": root.label, "case": lab, "json": j, "where": d[0], "reason": d[1]})
             if len(res["samples"]) < 2 and res["cases"] % 131 == 1:
                 res["samples"].append({"site": site, "alternative": alt, "case": lab, "json": j})
+    cov.stop()
+    import importlib
+
+    H = importlib.import_module("lsprotocol._hooks")
+    res["hook_lines_all"] = sorted(HookCoverage.all_lines(H))
+    res["hook_lines_hit"] = sorted(cov.lines)
     res["pairs"] = sorted("%s@%s" % p for p in pairs)
     res["sites"] = sorted(sites)
     res["hooks_fired"] = sorted(py.tap.fired())
@@ -75,6 +85,11 @@ def main(tier):
         gb += r["genbugs"]
     if gb:
         rep.inconc("generator produced %d invalid forced values" % gb)
+    all_lines, hit = set(), set()
+    for r in results:
+        all_lines.update(r.get("hook_lines_all", []))
+        hit.update(r.get("hook_lines_hit", []))
+    never = sorted(all_lines - hit)
     cases = sum(r["cases"] for r in results)
     if not cases:
         rep.inconc("no case executed")
@@ -86,6 +101,9 @@ def main(tier):
         "occurrence_alternative_pairs": len(pairs),
         "hooks_registered": len(names),
         "hooks_fired": len(fired),
+        "hooks_py_statement_lines": len(all_lines),
+        "hooks_py_lines_executed": len(all_lines & hit),
+        "hooks_py_lines_never_executed": never[:80],
         "hooks_never_fired": [nm for x, nm in enumerate(names) if x not in fired],
         "not_observable": "partialResult unions have no Python position (ProgressParams.value is LSPAny)",
         "exhaustive": True,
